@@ -89,17 +89,26 @@ func ExecuteSubscription(p ExecuteParams) chan *Result {
 		})
 	}
 	var resultChannel = make(chan *Result)
+	// send delivers one result, unless the subscription is cancelled first:
+	// the consumer may have stopped reading, and a goroutine blocked on the
+	// send would never end
+	send := func(r *Result) {
+		select {
+		case resultChannel <- r:
+		case <-p.Context.Done():
+		}
+	}
 	go func() {
 		defer close(resultChannel)
 		defer func() {
 			if err := recover(); err != nil {
 				e, ok := err.(error)
 				if !ok {
-					return
+					e = fmt.Errorf("%v", err)
 				}
-				resultChannel <- &Result{
+				send(&Result{
 					Errors: gqlerrors.FormatErrors(e),
-				}
+				})
 			}
 			return
 		}()
@@ -114,18 +123,18 @@ func ExecuteSubscription(p ExecuteParams) chan *Result {
 		})
 
 		if err != nil {
-			resultChannel <- &Result{
+			send(&Result{
 				Errors: gqlerrors.FormatErrors(err),
-			}
+			})
 
 			return
 		}
 
 		operationType, err := getOperationRootType(p.Schema, exeContext.Operation)
 		if err != nil {
-			resultChannel <- &Result{
+			send(&Result{
 				Errors: gqlerrors.FormatErrors(err),
-			}
+			})
 
 			return
 		}
@@ -147,9 +156,9 @@ func ExecuteSubscription(p ExecuteParams) chan *Result {
 		fieldDef := getFieldDef(p.Schema, operationType, fieldName)
 
 		if fieldDef == nil {
-			resultChannel <- &Result{
+			send(&Result{
 				Errors: gqlerrors.FormatErrors(fmt.Errorf("the subscription field %q is not defined", fieldName)),
-			}
+			})
 
 			return
 		}
@@ -157,9 +166,9 @@ func ExecuteSubscription(p ExecuteParams) chan *Result {
 		resolveFn := fieldDef.Subscribe
 
 		if resolveFn == nil {
-			resultChannel <- &Result{
+			send(&Result{
 				Errors: gqlerrors.FormatErrors(fmt.Errorf("the subscription function %q is not defined", fieldName)),
-			}
+			})
 			return
 		}
 		fieldPath := &ResponsePath{
@@ -187,17 +196,17 @@ func ExecuteSubscription(p ExecuteParams) chan *Result {
 			Context: p.Context,
 		})
 		if err != nil {
-			resultChannel <- &Result{
+			send(&Result{
 				Errors: gqlerrors.FormatErrors(err),
-			}
+			})
 
 			return
 		}
 
 		if fieldResult == nil {
-			resultChannel <- &Result{
+			send(&Result{
 				Errors: gqlerrors.FormatErrors(fmt.Errorf("no field result")),
-			}
+			})
 
 			return
 		}
@@ -224,7 +233,7 @@ func ExecuteSubscription(p ExecuteParams) chan *Result {
 				}
 			}
 		default:
-			resultChannel <- mapSourceToResponse(fieldResult)
+			send(mapSourceToResponse(fieldResult))
 			return
 		}
 	}()
